@@ -35,7 +35,7 @@ int64_t w_le_double(uint32_t op, uint64_t v, uint64_t d, uint8_t* raw, uint64_t*
 int64_t w_be_double(uint32_t op, uint64_t v, uint64_t d, uint8_t* raw, uint64_t* ret);
 int64_t w_re_double(uint32_t op, uint64_t v, uint64_t d, uint8_t* raw, uint64_t* ret);
 enum { OP_CTOR = 0, OP_ASSIGN, OP_STORE_LOAD, OP_RAW, OP_ADD, OP_SUB, OP_MUL, OP_DIV, OP_MOD, OP_AND, OP_OR, OP_XOR, OP_SHL, OP_SHR,
-  OP_PREINC, OP_POSTINC, OP_PREDEC, OP_POSTDEC, OP_COPY, OP_ADD_I = 20, OP_SUB_I, OP_AND_I, OP_OR_I, OP_XOR_I, OP_SHL_I, OP_SHR_I };
+  OP_PREINC, OP_POSTINC, OP_PREDEC, OP_POSTDEC, OP_COPY };
 #define NB (BITS / 8)
 #define MASK ((BITS == 64) ? ~0ULL : ((1ULL << (BITS % 64)) - 1))
 #define SIGNBIT (1ULL << (BITS - 1))
@@ -92,16 +92,9 @@ static uint64_t bf(flt_t f) { uint64_t x; memcpy(&x, &f, 8); return x; }
 #endif
 
 void harness(void) {
-#ifdef INTOPS
-  uint64_t v = in_u64() & MASK, d = in_u64() & 0xFFFFFFFFULL; /* d: all 2^32 int values */
-#else
   uint64_t v = in_u64() & MASK, d = in_u64() & MASK;
-#endif
 #ifdef OP
   uint32_t op = OP;
-#elif defined(INTOPS)
-  /* right-hand side of type int (R != T): x += i, -=, &=, |=, ^=, <<=, >>= */
-  uint32_t op = (uint32_t)in_range(OP_ADD_I, OP_SHR_I);
 #else
   uint32_t op = (uint32_t)in_range(0, OP_COPY);
   /* the expensive arithmetic kernels have their own queries (-DOP=...) */
@@ -136,9 +129,6 @@ void harness(void) {
   const NT x = (NT)v, y = (NT)d;
   const PT px = (PT)x, py = (PT)y;            /* integral promotion (sign- or zero-extends) */
   const UPT ux = (UPT)px, uy = (UPT)py;
-  const int32_t di = (int32_t)(uint32_t)d; /* the operand as a plain int (OP_*_I) */
-  const PT pi = (PT)di;                    /* converted to the type the arithmetic is done in */
-  const UPT ui = (UPT)pi;
   PT t;
   int ovf = 0; /* the native operation would overflow a signed (promoted) type: undefined, excluded */
 #define RES(e) ((uint64_t)(UNT)(NT)(e)) /* convert back to NT (modular), as bit pattern */
@@ -171,18 +161,6 @@ void harness(void) {
     case OP_POSTINC: stored = RES(ux + 1); returned = v; if (PSIGNED) ovf = __builtin_add_overflow(px, (PT)1, &t); break;
     case OP_PREDEC: stored = returned = RES(ux - 1); if (PSIGNED) ovf = __builtin_sub_overflow(px, (PT)1, &t); break;
     case OP_POSTDEC: stored = RES(ux - 1); returned = v; if (PSIGNED) ovf = __builtin_sub_overflow(px, (PT)1, &t); break;
-    /* int operand: the usual arithmetic conversions bring it to the promoted type PT (int stays int for the 16/32-bit signed
-     * cells, converts modularly to unsigned / widens to 64 bits otherwise) */
-    case OP_ADD_I: stored = returned = RES(ux + ui); if (PSIGNED) ovf = __builtin_add_overflow(px, pi, &t); break;
-    case OP_SUB_I: stored = returned = RES(ux - ui); if (PSIGNED) ovf = __builtin_sub_overflow(px, pi, &t); break;
-    case OP_AND_I: stored = returned = RES(ux & ui); break;
-    case OP_OR_I: stored = returned = RES(ux | ui); break;
-    case OP_XOR_I: stored = returned = RES(ux ^ ui); break;
-    case OP_SHL_I: ASSUME(di >= 0 && di < BITS); stored = returned = RES(ux << di); break;
-    case OP_SHR_I: ASSUME(di >= 0 && di < BITS);
-      if (PSIGNED && px < 0) stored = RES(~((~ux) >> di));
-      else stored = RES(ux >> di);
-      returned = stored; break;
     default: ASSUME(0);
   }
   ASSUME(!ovf);
